@@ -68,6 +68,17 @@ class AnmCases:
     def ev(self, t):
         k = t[0]
         if k == "phi":
+            c_ = t[1]
+            own = [x for x in walk(c_) if isinstance(x, tuple) and x and x[0] == "apply" and isinstance(x[1], tuple) and x[1][0] == "sub" and x[1][2] == self.i
+                   and x[1][1] in (("self", "assignments"), ("self", "noise_distributions"))]
+            if own:
+                # a branch on the *value* an assignment / noise callable returned (its ndim, its truth value, ...): both outcomes
+                # must be the same sum of draws, otherwise the term is dropped for some return forms (scalars, 0-d arrays, zeros)
+                a_, b_ = self.ev(t[2]), self.ev(t[3])
+                if a_ != b_:
+                    self.problems.append("whether `%s` enters X[:, i] depends on the value it returns (`%s`): for the other outcome the variable is %s" % (
+                        fmt(own[0])[:50], fmt(c_)[:60], dict(b_) if len(b_) < len(a_) else dict(a_)))
+                return a_ if len(a_) >= len(b_) else b_
             return self.ev(t[2] if self.cond(t[1]) else t[3])
         if k == "binop" and t[1] == "+":
             return self.ev(t[2]) + self.ev(t[3])
@@ -142,8 +153,19 @@ def run(prog, rep, tier):
     lid, li = loops[0]
     rep.check("ORDER.loop", li["iter"] == ("self", "ordering"), fwhere(f, li["node"]), "variables are generated in the order self.ordering",
               "the loop runs over %s, not over self.ordering" % fmt(li["iter"]))
-    if li["changed"] != ["X"] and len(li["changed"]) != 1:
-        raise Inconclusive("ANM.sample: loop carries %s" % li["changed"], li["node"])
+    if len(li["changed"]) != 1:
+        # other variables rebound in the loop body: harmless while each iteration computes them afresh; a value that survives from
+        # the iteration of *another* variable and reaches the column that is stored is a draw shared between two variables
+        arrays = [k for k in li["changed"] if zeros_of(li["init"].get(k), shapes=[("tuple", (("param", "n"), ("self", "p")))], allow_empty=True)]
+        if len(arrays) != 1:
+            raise Inconclusive("ANM.sample: loop carries %s" % li["changed"], li["node"])
+        main = arrays[0]
+        leaked = [k for k in li["changed"] if k != main and any(x == ("mu", lid, k) for x in walk(li["next"][main]))]
+        if leaked:
+            rep.bad("CASES.carry", fwhere(f, li["node"]), "the column stored for variable i can contain `%s` as it was left by the iteration of another variable "
+                    "(it is not recomputed on every path of the loop body): one draw ends up in two variables" % leaked[0])
+            raise Inconclusive("ANM.sample: loop carries %s" % li["changed"], li["node"])
+        li = dict(li, changed=[main])
     name = li["changed"][0]
     i = ("elem", li["iter"])
     X = ("mu", lid, name)
